@@ -30,6 +30,8 @@ pub struct Opts {
   pub protocol: bool,
   /// extra lookups (find / find_range / by number ...) in State events
   pub lookups: bool,
+  /// State steps log only {count, indexed, digest} (protocol family)
+  pub digest_only: bool,
 }
 
 impl Default for Opts {
@@ -41,6 +43,7 @@ impl Default for Opts {
       update_timeout: Duration::from_secs(20),
       protocol: false,
       lookups: true,
+      digest_only: false,
     }
   }
 }
@@ -207,6 +210,9 @@ impl Runner {
       _ => 0,
     };
     let flags = self.flags_json();
+    let mut sorted_flags = self.sc.flags.clone();
+    sorted_flags.sort();
+    let flag_key = format!("{}:{}", self.sc.chain, sorted_flags.join("+"));
     let ev = json!({
       "e": "Reset",
       "name": self.sc.name,
@@ -215,6 +221,7 @@ impl Runner {
       "subsidy": SUBSIDY_UNITS,
       "flags": flags,
       "events": self.opts.events,
+      "flagKey": flag_key,
       "commitInterval": self.sc.commit_interval.unwrap_or(5000),
       "savepointInterval": self.sc.savepoint_interval.unwrap_or(10),
       "maxSavepoints": self.sc.max_savepoints.unwrap_or(2),
@@ -275,7 +282,7 @@ impl Runner {
         self.emit(json!({"e": "Reopen", "count": count}));
       }
       Step::State => self.state()?,
-      Step::Fresh => self.fresh()?,
+      Step::Fresh { limit } => self.fresh(*limit)?,
       Step::Crash { point, occ } => self.crash(point, *occ)?,
     }
     Ok(())
@@ -483,28 +490,37 @@ impl Runner {
     Ok((format!("{:016x}", all.finish()), per_table))
   }
 
-  pub fn fresh(&mut self) -> Result<()> {
+  pub fn fresh(&mut self, limit: Option<u32>) -> Result<()> {
     let dir = tempfile::TempDir::new()?;
     let mut sc = self.sc.clone();
     // default schedule: one update, default commit interval
     sc.commit_interval = None;
+    let extra: Vec<String> = match limit {
+      Some(n) => vec!["--height-limit".into(), n.to_string()],
+      None => Vec::new(),
+    };
     let settings = settings_for(
       &sc,
       &self.node.handle.url(),
       &self.node.handle.cookie_file(),
       dir.path(),
-      &[],
+      &extra,
     )?;
     let index = Index::open(&settings)?;
     index.update().context("fresh index update")?;
     let (digest, tables) = Self::digest_of(&index)?;
-    let chain = self.chain_ids();
-    self.emit(json!({"e": "Fresh", "chain": chain, "digest": digest, "tables": tables}));
+    let mut chain = self.chain_ids();
+    if let Some(n) = limit {
+      chain.truncate((n as usize).saturating_sub(1));
+    }
+    let count = index.block_count()?;
+    self.emit(json!({"e": "Fresh", "chain": chain, "count": count, "digest": digest, "tables": tables}));
     Ok(())
   }
 
   pub fn crash(&mut self, point: &str, occ: u64) -> Result<()> {
     // close our handle, run update in a child that aborts at the crash point
+    let before = self.index().block_count()?;
     self.index = None;
     let exe = std::env::current_exe()?;
     let sc_path = self.dir.path().join("crash-scenario.json");
@@ -521,12 +537,24 @@ impl Runner {
       .output()?;
     let stdout = String::from_utf8_lossy(&status.stdout).to_string();
     let crashed = !status.status.success();
-    // the child prints the protocol events it saw as ndjson on stdout before the abort
-    let mut commits = Vec::new();
+    // the child prints the protocol events it saw as ndjson on stdout before the abort;
+    // `durable` is the sequence of block counts made durable by its commits and rollbacks
+    let mut durable = Vec::new();
     for line in stdout.lines() {
-      if let Ok(v) = serde_json::from_str::<Value>(line) {
+      if let Ok(mut v) = serde_json::from_str::<Value>(line) {
         if v["e"] == "CommitMain" {
-          commits.push(v["height"].clone());
+          durable.push(v["height"].clone());
+        }
+        if v["e"] == "Rollback" {
+          durable.push(v["count"].clone());
+        }
+        if self.opts.protocol && v.get("e").is_some() {
+          if let Some(hash) = v.get("hash").and_then(|h| h.as_str()).map(|s| s.to_string()) {
+            let id = hash.parse().map(|h| self.node.block_label(&h)).unwrap_or_default();
+            v.as_object_mut().unwrap().insert("id".into(), json!(id));
+            v.as_object_mut().unwrap().remove("hash");
+          }
+          self.emit(v);
         }
       }
     }
@@ -534,11 +562,22 @@ impl Runner {
     let count = self.index().block_count()?;
     let indexed = self.indexed_ids()?;
     self.emit(json!({"e": "Crash", "point": point, "occ": occ, "crashed": crashed,
-      "count": count, "indexed": indexed, "chain": self.chain_ids()}));
+      "count": count, "indexed": indexed, "chain": self.chain_ids(), "durable": durable, "before": before,
+      "stderr": String::from_utf8_lossy(&status.stderr).lines().last().unwrap_or("").to_string()}));
+    // the content after reopening, and a from-scratch index of the same prefix
+    self.state()?;
+    self.fresh(Some(count))?;
     Ok(())
   }
 
   pub fn state(&mut self) -> Result<()> {
+    if self.opts.digest_only {
+      let (digest, tables) = Self::digest_of(self.index())?;
+      let count = self.index().block_count()?;
+      let indexed = self.indexed_ids()?;
+      self.emit(json!({"e": "Digest", "count": count, "indexed": indexed, "digest": digest, "tables": tables}));
+      return Ok(());
+    }
     let ev = self.project()?;
     self.emit(ev);
     Ok(())
